@@ -37,6 +37,7 @@ type LiveOpts struct {
 	SaveConfirm                                                        bool
 	SaveBusy                                                           int
 	Chunk, Latency                                                     bool
+	SchedSeed                                                          int // seed of the chunking / latency schedule; 0 = none
 	Startup                                                            *cisco.Conf // nil = same as running
 	World                                                              *world.World // reuse this basedir (not removed afterwards)
 }
@@ -95,6 +96,9 @@ func DefaultLiveOpts(tp *tape.Tape) LiveOpts {
 	o.Chunk = tp.Chance(1, 3)
 	o.Latency = tp.Chance(1, 4)
 	o.Timeout = []int{60, 10, 30, 120}[tp.Next(4)]
+	if o.Chunk || o.Latency {
+		o.SchedSeed = tp.Next(1 << 20)
+	}
 	return o
 }
 
@@ -113,6 +117,11 @@ func (c *Ctx) LiveCisco(cs *CiscoCase, o LiveOpts, sched *tape.Tape) *LiveResult
 			c.T.Fatal(err)
 		}
 		defer os.RemoveAll(w.Dir)
+	}
+	if (o.Chunk || o.Latency) && o.SchedSeed != 0 {
+		// The same options give the same schedule: base run and faulted runs
+		// of one case agree up to the fault.
+		sched = tape.New(uint64(o.SchedSeed), 7)
 	}
 	log := evlog.New()
 	dev := &cisco.Device{
@@ -160,7 +169,9 @@ func (c *Ctx) LiveCisco(cs *CiscoCase, o LiveOpts, sched *tape.Tape) *LiveResult
 				synctest.Wait()
 			})
 			s.ChunkOn, s.LatencyOn = o.Chunk, o.Latency
-			s.MaxDelay = time.Duration(o.Timeout) * time.Second / 3
+			// Legal latency stays below every configured timeout (a reply later
+			// than that is the fault kind 'stall').
+			s.MaxDelay = min(time.Duration(o.Timeout)*time.Second/3, time.Duration(o.LoginTO)*time.Second/2)
 			sessions = append(sessions, s)
 			dev.Sess = s
 			log.Add("tool", "spawn %s", strings.Join(cmd, " "))
@@ -173,6 +184,8 @@ func (c *Ctx) LiveCisco(cs *CiscoCase, o LiveOpts, sched *tape.Tape) *LiveResult
 		r.EndSeq = log.Add("tool", "exit %d", r.Res.Exit)
 		for _, s := range sessions {
 			s.Teardown()
+			c.Count("sched:split_replies", s.Splits)
+			c.Count("sched:delayed_replies", s.Delays)
 		}
 	})
 	r.Kind, r.Transcr, r.FaultSeq, r.FaultK, r.Fired = cs.Kind, dev.Transcr, dev.FaultSeq, dev.FaultK, dev.FaultsFired
